@@ -220,9 +220,15 @@ macro_rules! register_window {
         let receiver = $window.register();
         thread::spawn(move || {
             loop {
+                #[cfg(kolibrie_verif)]
+                crate::rsp_engine::verif_hooks::yield_point(1);
                 match receiver.recv() {
                     Ok(content) => {
+                        #[cfg(kolibrie_verif)]
+                        crate::rsp_engine::verif_hooks::yield_point(2);
                         $processor(content);
+                        #[cfg(kolibrie_verif)]
+                        crate::rsp_engine::verif_hooks::firing_processed();
                     }
                     Err(_) => {
                         debug!("Shutting down window {}!", $window_iri);
@@ -231,6 +237,8 @@ macro_rules! register_window {
                 }
             }
             debug!("Shutdown complete for window {}!", $window_iri);
+            #[cfg(kolibrie_verif)]
+            crate::rsp_engine::verif_hooks::worker_exited();
         });
     }};
 }
@@ -568,6 +576,8 @@ where
             let mut max_ts: usize = 0;
 
             loop {
+                #[cfg(kolibrie_verif)]
+                crate::rsp_engine::verif_hooks::yield_point(3);
                 // Compute recv timeout when policy has a finite deadline
                 let timeout_remaining = match &sync_policy {
                     SyncPolicy::Timeout { duration, .. } => {
@@ -644,6 +654,10 @@ where
                 };
 
                 if let Some(window_result) = maybe_result {
+                    #[cfg(kolibrie_verif)]
+                    crate::rsp_engine::verif_hooks::yield_point(4);
+                    #[cfg(kolibrie_verif)]
+                    let mut verif_consumed: usize = 1;
                     debug!(
                         "Coordinator received {} results from window: {}",
                         window_result.results.len(),
@@ -669,6 +683,10 @@ where
 
                     // Drain any additional pending results
                     while let Ok(wr) = receiver.try_recv() {
+                        #[cfg(kolibrie_verif)]
+                        {
+                            verif_consumed += 1;
+                        }
                         max_ts = max_ts.max(wr.timestamp);
                         if cross_window_enabled {
                             cross_window_latest_contents
@@ -762,10 +780,14 @@ where
                             }
                         }
                     }
+                    #[cfg(kolibrie_verif)]
+                    crate::rsp_engine::verif_hooks::coordinator_consumed(verif_consumed);
                 }
             }
 
             debug!("Coordinator: shutdown complete");
+            #[cfg(kolibrie_verif)]
+            crate::rsp_engine::verif_hooks::coordinator_exited();
         });
     }
 
@@ -1263,4 +1285,87 @@ fn emit_cross_window_results<O>(
         ts,
         consumer,
     );
+}
+
+// Verification hooks (add-only; compiled only with `--cfg kolibrie_verif`). No behaviour change:
+// counters of completed work (so a harness can wait for quiescence of the detached worker and
+// coordinator threads instead of sleeping) and seeded schedule-perturbation points called from the
+// window worker loop (`register_window!(MultiThread)`, sites 1-2) and the coordinator loop (sites 3-4).
+#[cfg(kolibrie_verif)]
+pub mod verif_hooks {
+    use std::sync::atomic::{AtomicU64, AtomicUsize, Ordering};
+
+    static FIRINGS_PROCESSED: AtomicUsize = AtomicUsize::new(0);
+    static COORD_CONSUMED: AtomicUsize = AtomicUsize::new(0);
+    static WORKERS_EXITED: AtomicUsize = AtomicUsize::new(0);
+    static COORD_EXITED: AtomicUsize = AtomicUsize::new(0);
+    /// 0 = perturbation off; u64::MAX = not initialised (read `KOLIBRIE_VERIF_SCHED_SEED` once).
+    static SCHED_STATE: AtomicU64 = AtomicU64::new(u64::MAX);
+
+    /// Reset the counters (call before building an engine).
+    pub fn reset() {
+        FIRINGS_PROCESSED.store(0, Ordering::SeqCst);
+        COORD_CONSUMED.store(0, Ordering::SeqCst);
+        WORKERS_EXITED.store(0, Ordering::SeqCst);
+        COORD_EXITED.store(0, Ordering::SeqCst);
+    }
+    /// Seed of the schedule perturbation; 0 switches it off.
+    pub fn set_schedule_seed(seed: u64) {
+        SCHED_STATE.store(if seed == u64::MAX { 1 } else { seed }, Ordering::SeqCst);
+    }
+    /// Number of window contents a MultiThread worker has completely processed (processor returned).
+    pub fn firings_processed() -> usize {
+        FIRINGS_PROCESSED.load(Ordering::SeqCst)
+    }
+    /// Number of window results the coordinator has consumed in completed loop iterations.
+    pub fn coordinator_consumed_count() -> usize {
+        COORD_CONSUMED.load(Ordering::SeqCst)
+    }
+    /// Number of MultiThread window worker threads that have left their receive loop (channel closed).
+    pub fn workers_exited() -> usize {
+        WORKERS_EXITED.load(Ordering::SeqCst)
+    }
+    /// Number of coordinator threads that have left their loop (all result senders dropped).
+    pub fn coordinators_exited() -> usize {
+        COORD_EXITED.load(Ordering::SeqCst)
+    }
+    pub(crate) fn worker_exited() {
+        WORKERS_EXITED.fetch_add(1, Ordering::SeqCst);
+    }
+    pub(crate) fn coordinator_exited() {
+        COORD_EXITED.fetch_add(1, Ordering::SeqCst);
+    }
+    pub(crate) fn firing_processed() {
+        FIRINGS_PROCESSED.fetch_add(1, Ordering::SeqCst);
+    }
+    pub(crate) fn coordinator_consumed(n: usize) {
+        COORD_CONSUMED.fetch_add(n, Ordering::SeqCst);
+    }
+    /// Seeded perturbation of the thread schedule: nothing, `yield_now`, or a short sleep.
+    pub(crate) fn yield_point(site: u64) {
+        let mut st = SCHED_STATE.load(Ordering::Relaxed);
+        if st == u64::MAX {
+            st = std::env::var("KOLIBRIE_VERIF_SCHED_SEED")
+                .ok()
+                .and_then(|v| v.parse::<u64>().ok())
+                .unwrap_or(0);
+            SCHED_STATE.store(st, Ordering::Relaxed);
+        }
+        if st == 0 {
+            return;
+        }
+        // splitmix64 step on the shared state, mixed with the call site
+        let next = st.wrapping_add(0x9E37_79B9_7F4A_7C15).wrapping_add(site);
+        SCHED_STATE.store(if next == 0 || next == u64::MAX { 1 } else { next }, Ordering::Relaxed);
+        let mut z = next;
+        z = (z ^ (z >> 30)).wrapping_mul(0xBF58_476D_1CE4_E5B9);
+        z = (z ^ (z >> 27)).wrapping_mul(0x94D0_49BB_1331_11EB);
+        z ^= z >> 31;
+        match z % 10 {
+            0..=3 => {}
+            4..=6 => std::thread::yield_now(),
+            7..=8 => std::thread::sleep(std::time::Duration::from_micros(20 + (z >> 8) % 200)),
+            _ => std::thread::sleep(std::time::Duration::from_micros(300 + (z >> 8) % 1500)),
+        }
+    }
 }
